@@ -158,7 +158,7 @@ def gen_upgrad(rng, i):
     c1, c2, a, b = gen_scalings(rng, m)
     # norm_eps: the default (1e-4: every judged matrix must then be clearly above it), or far below every matrix
     return {"J": J.tolist(), "class": klass, "dtype": "float64", "pref": pref, "c1": c1.tolist(), "c2": c2.tolist(), "a": a, "b": b,
-            "norm_eps": "default" if rng.random() < 0.5 else 1e-30}
+            "norm_eps": "default" if rng.random() < 0.5 else 1e-30, "buffer": bool(rng.random() < 0.3)}
 
 
 def check_upgrad(case, ctx):
@@ -190,7 +190,15 @@ def check_upgrad(case, ctx):
         if ne != "default":
             desc["norm_eps"] = ne
         outs, recs, failed = [], [], False
-        for X in Xt:
+        buf = None
+        for xi, X in enumerate(Xt):
+            if case.get("buffer") and xi < 2:
+                # diag(c1) J and diag(c2) J pass through ONE pre-allocated buffer refilled in place; the combination is a new tensor
+                if buf is None:
+                    buf = X.clone()
+                else:
+                    buf.copy_(X)
+                X = buf
             o, err, rec = E.run(desc, X)
             if err is not None:
                 failed = True
